@@ -25,6 +25,11 @@ def register(GROUPS, c2g, incs, REPO, HERE, STRUCTS, Group):
             out = "nary_npay" if fname == "sc_notify_payload_nary" else "npay"
             t, i = c2g.translate_block(st, gname, [], [out], fname=fname, free_params=True, init={out: "0"})
             g.add(t, i)
+        # depth of the tree and product of the widths
+        F = fn("sc_notify_payload_nary")
+        st = c2g.select_between(F, src, r"if \(mpisize <= nbot\) \{", r"SC_ASSERT \(mpisize <= prod\)")
+        t, i = c2g.translate_block(st, "nary_depth", [], ["depth", "prod"], fname="nary", free_params=True, init={"depth": "0", "prod": "0"})
+        g.add(t, i)
         # 2. n-ary recursion
         F = fn("sc_notify_recursive_nary")
         st = c2g.select_between(F, src, r"divn =\s*$", r"SC_ASSERT \(length % divn == 0\)")
